@@ -183,7 +183,7 @@ def run(tier, seed):
     ok, sites, failing = frame.rule_descflow()
     chk.add_rule("C07.S.desc_flow", ok, sites, failing)
     res = run_pairs()
-    n = 6 if tier == "quick" else 60
+    n = 6 if tier == "quick" else 300
     res += [x for r in harness.pmap(_corpus_pairs, [(seed, i) for i in range(n)]) for x in r]
     fails = [r for r in res if r[0] == "mismatch"]
     both = [r for r in res if r[0] == "both-fail"]
